@@ -95,9 +95,9 @@ class Gen:
         return a
 
     def multi_subs(self, nest):
-        pool = list(FAILURE_KINDS + ERROR_KINDS + SKIP_KINDS)
+        pool = ["fail", "assertion_sub", "error", "error_key", "error_falsy", "skip", "skip_sub", "skip_empty"]
         if self.o.get("nonexc"):
-            pool += ["kbi", "sysexit"]
+            pool += ["kbi", "sysexit", "kbi"]
         if nest:
             pool += ["multi", "multi"]
         subs = []
